@@ -11,10 +11,14 @@
  *   glo   the block STARTS directly after a PROT_NONE page (reading buf[-1] faults)
  * Crash isolation: the parent forks a worker that runs cases in order and publishes the index
  * and the library function it is inside in shared memory.  When the worker dies (sanitizer
- * abort, SIGSEGV on a guard page, alarm() watchdog) the parent prints
+ * abort, wild SIGSEGV) the parent prints
  *   "X <idx> fn=<function> st=<sig|exit code>"  after the worker's report and forks a new
  * worker for the remaining cases.  "T <idx>": case not run, the crash budget of its op (argv[2] worker
  * deaths per op name) is used up.
+ * Watchdog: 1 s of CPU time per case (ITIMER_VIRTUAL; 10 s wall clock as a backstop).  A case that runs into it is
+ * reported as "FAULT sig=26 ..." / "X <idx> ... st=fault" and the worker carries on (the parsers hold no locks).
+ * A line may end in "@<class>": after 3 watchdog hits in one class the remaining cases of that class are
+ * answered "T <idx>" (not run) so that a non-terminating parser costs seconds, not the whole run.
  * Answers are "R <idx> <op> k=v ...".  Ops with several library calls take a phase argument so that one
  * faulting call does not hide the calls after it.
  */
@@ -31,6 +35,7 @@
 #include <unistd.h>
 #include <ucontext.h>
 #include <setjmp.h>
+#include <sys/time.h>
 
 #include "utils/macro.h"
 #include "utils/mem_utils.h"
@@ -52,7 +57,10 @@
 
 /* ------------------------------------------------------------------ shared progress record */
 #define NOPS 24
-typedef struct { volatile long idx; char fn[96]; char op[32]; char ops[NOPS][32]; long crashes[NOPS]; } shm_t;
+#define NCLS 512
+#define TMO_PER_CLASS 3
+typedef struct { volatile long idx; char fn[96]; char op[32]; char ops[NOPS][32]; long crashes[NOPS];
+	char cls[NCLS][48]; int tmo[NCLS]; int cur_cls; } shm_t;
 static shm_t *shm;
 #define FN(name) do { strncpy(shm->fn, (name), sizeof(shm->fn) - 1); } while (0)
 
@@ -123,7 +131,7 @@ static void on_fault(int sig, siginfo_t *si, void *uc_) {
 	}
 	n = snprintf(msg, sizeof(msg), "\nFAULT sig=%d acc=%c where=%s off=%ld fn=%s\n", sig, acc, where, off, shm->fn);
 	/* guard builds recover in-process (no locks are held inside the parsers); anything else ends the worker */
-	if (fault_jb_armed && mode != M_HEAP && strcmp(where, "wild") != 0) {
+	if (fault_jb_armed && (sig == SIGVTALRM || sig == SIGALRM || (mode != M_HEAP && strcmp(where, "wild") != 0))) {
 		memcpy(fault_msg, msg, sizeof(fault_msg));
 		fault_jb_armed = 0;
 		siglongjmp(fault_jb, 1);
@@ -136,6 +144,7 @@ static void install_handlers(void) {
 	memset(&sa, 0, sizeof(sa));
 	sa.sa_sigaction = on_fault; sa.sa_flags = SA_SIGINFO;
 	sigaction(SIGALRM, &sa, NULL);
+	sigaction(SIGVTALRM, &sa, NULL);
 	sigaction(SIGFPE, &sa, NULL);
 	if (mode != M_HEAP) { sigaction(SIGSEGV, &sa, NULL); sigaction(SIGBUS, &sa, NULL); }
 }
@@ -494,10 +503,23 @@ static void op_ts(const uint8_t *in, size_t n, long ph) {
 
 /* ------------------------------------------------------------------ main loop */
 static char **lines; static size_t nlines; static long budget;
+static void watchdog(int on) {
+	struct itimerval it; memset(&it, 0, sizeof(it));
+	if (on) it.it_value.tv_sec = 1;
+	setitimer(ITIMER_VIRTUAL, &it, NULL);           /* 1 s of CPU time in the parser */
+	alarm(on ? 10 : 0);                             /* wall clock backstop */
+}
 static void run_case(size_t idx) {
 	char op[32], *hex = malloc(strlen(lines[idx]) + 1); long a1 = 0, a2 = 0; size_t n; uint8_t *in;
-	int k = sscanf(lines[idx], "%31s %s %ld %ld", op, hex, &a1, &a2);
+	const char *at = strrchr(lines[idx], '@');
+	int k = sscanf(lines[idx], "%31s %s %ld %ld", op, hex, &a1, &a2), ci = -1;
 	if (k < 2) { printf("R %zu bad-line\n", idx); free(hex); return; }
+	if (at) {                                       /* class of the case: watchdog budget */
+		for (ci = 0; ci < NCLS - 1 && shm->cls[ci][0] && strcmp(shm->cls[ci], at + 1); ci++) ;
+		if (!shm->cls[ci][0]) strncpy(shm->cls[ci], at + 1, sizeof(shm->cls[ci]) - 1);
+		if (shm->tmo[ci] >= TMO_PER_CLASS) { printf("T %zu\n", idx); free(hex); return; }
+	}
+	shm->cur_cls = ci;
 	if (budget > 0) {
 		for (int i = 0; i < NOPS && shm->ops[i][0]; i++)
 			if (!strcmp(shm->ops[i], op) && shm->crashes[i] >= budget) { printf("T %zu\n", idx); free(hex); return; }
@@ -506,9 +528,10 @@ static void run_case(size_t idx) {
 	span_msg[0] = 0;
 	shm->idx = (long)idx; FN("driver"); strncpy(shm->op, op, sizeof(shm->op) - 1);
 	printf("R %zu %s", idx, op);
-	alarm(5);
+	watchdog(1);
 	if (sigsetjmp(fault_jb, 1) != 0) {
-		alarm(0);
+		watchdog(0);
+		if (strstr(fault_msg, "sig=26") || strstr(fault_msg, "sig=14")) { if (shm->cur_cls >= 0) shm->tmo[shm->cur_cls]++; }
 		printf("\n%sX %zu fn=%s st=fault\n", fault_msg, idx, shm->fn);
 		free(in); free(hex);
 		return;
@@ -532,7 +555,7 @@ static void run_case(size_t idx) {
 	else if (!strcmp(op, "ts")) op_ts(in, n, a1);
 	else printf(" unknown-op");
 	fault_jb_armed = 0;
-	alarm(0);
+	watchdog(0);
 	if (span_msg[0]) printf(" span=%s", span_msg);
 	printf("\n");
 	free(in); free(hex);
